@@ -37,6 +37,11 @@ Correspondence / exploration streams (each registered as an obligation):
  c' the same with a NON-empty initial template library (the single-batch `cluster` branch of `fit`; theorem
     `batched_cluster_eq_oneshot_templates`): labels of the initial library are compared exactly, new classes as a
     partition; returned library: initial part kept, labels as the model's.
+ c-rep / c'-rep  c and c' with the pre-filter attribute SPELLED differently from record to record: values that are equal under
+    `==` (4 / 4.0 / numpy.int64(4) / numpy.float32(4.0), 0 / -0.0, 'ab' / numpy.str_('ab'), key absent / None, [4, 3.0] /
+    [4.0, 3]) are ONE value for the model (the code is the graphio encoding of the object handed to the implementation), NaN
+    is equal to nothing; multi-digit and falsy values; graphs as relabelled, re-typed copies carrying unselected extra
+    attributes; one BatchCluster instance / one list of record dicts used for all batch sizes, in several call orders.
  d  `validate_smiles` / `dicts_balance_check` with n_jobs 1 vs 4.
  d' the same through every documented input form (DataFrame / list; single string / list of strings and dicts, other
     column names), per-pair options (check_method, ignore_aromaticity, ignore_tautomers), unparsable rows, empty and
@@ -502,6 +507,16 @@ def fit_impl(world, case):
             rules = [shared[t] for t in f["rules"]]
         elif case["rules_as"] == "mixed":
             rules = [rsmi_to_its(r, core=True) if j % 2 else r for j, r in enumerate(rules)]
+        # `fit(rules: Iterable)`: one-shot iterables and a tuple are documented inputs as much as a list
+        form = case.get("rules_iter")
+        if form == "gen":
+            rules = (r for r in rules)
+        elif form == "iter":
+            rules = iter(rules)
+        elif form == "map":
+            rules = map(lambda r: r, rules)
+        elif form == "tuple":
+            rules = tuple(rules)
         try:
             if workers:
                 with quiet_stderr():
@@ -654,6 +669,13 @@ def gen_fit_case_productive(rnd, world, look_pairs, need, **kw):
     return best[1]
 
 
+def rules_iter_form(subs, seq):
+    """How the rule list of a fit case is handed over (list / tuple / one-shot iterable).  A fixed function of the case
+    (no draw from the PRNG: the populations of the older streams stay what they were for every seed)."""
+    h = (sum(subs) + 3 * sum(seq[0]["rules"]) + len(subs)) % 7
+    return [None, "gen", None, "iter", None, "tuple", "map"][h]
+
+
 def gen_fit_case(rnd, nS, nT, look_pairs, n_jobs=1, max_batch=7, min_batch=1):
     n = rnd.randint(min_batch, max_batch)
     subs = []
@@ -676,7 +698,8 @@ def gen_fit_case(rnd, nS, nT, look_pairs, n_jobs=1, max_batch=7, min_batch=1):
         seq.append({"rules": rules, "inv": rnd.random() < 0.35})
     return {"stream": "fit", "subs": subs, "seq": seq, "cache_on": rnd.random() < 0.8,
             "cache_max": rnd.choice([1, 1, 2, 2, 3, BIG]), "dedupe": rnd.random() < 0.6,
-            "rules_as": rnd.choice(["str", "graph"]), "n_jobs": n_jobs, "as_dict": rnd.random() < 0.2}
+            "rules_as": rnd.choice(["str", "graph"]), "n_jobs": n_jobs, "as_dict": rnd.random() < 0.2,
+            "rules_iter": rules_iter_form(subs, seq)}
 
 
 def ref_entry(world, case, f, s, rules=None):
@@ -726,6 +749,7 @@ def run_fit(ctx, world, cases, tag):
         ctx.count(f"{pre}cache_max={case['cache_max'] if case['cache_max'] < BIG else 'big'}")
         ctx.count(f"{pre}dedupe_{'on' if case['dedupe'] else 'off'}")
         ctx.count(f"{pre}fits", len(case["seq"]))
+        ctx.count(f"{pre}rules_handed_over_as={case.get('rules_iter') or 'list'}")
         ctx.count(f"{pre}entries", len(case["subs"]) * len(case["seq"]))
         ctx.count(f"{pre}entries_with_products", nonempty)
         if len(set(case["subs"])) < len(case["subs"]):
@@ -1024,7 +1048,7 @@ def gen_opt_case(rnd, world, look_pairs, k, opts, full_sems=False):
     case = {"stream": "fit", "alone": True, "subs": subs, "seq": seq,
             "cache_on": rnd.random() < 0.7, "cache_max": rnd.choice([1, 2, 3, BIG, BIG]), "dedupe": rnd.random() < 0.5,
             "rules_as": rnd.choice(["str", "graph", "graph_shared", "graph_shared", "mixed"]),
-            "as_dict": rnd.random() < 0.15, "sem": list(sem)}
+            "as_dict": rnd.random() < 0.15, "sem": list(sem), "rules_iter": rules_iter_form(subs, seq)}
     if rnd.random() < 0.2:
         case["pre_filter"] = rnd.choice(PRE_FILTERS)
     case.update(opts)
@@ -1135,24 +1159,191 @@ def cluster_attr(cw, i, attr_mode):
     return cw.sig[i] if attr_mode == "sig" else str(cw.graphs[i].number_of_nodes())
 
 
-def cluster_impl(cw, items, attr_mode, cfg, k, templates=None, none_templates=False, full=False):
+# ---- attribute / graph REPRESENTATION (streams c-rep, c'-rep).  `attr_mode` is either one of the strings "none" / "sig" /
+# "size" (the attribute is a function of the corpus index, always a str) or a JSON-able dict
+#   {"rep": {"data": [spec per position], "templates": [spec per template]},
+#    "graphs": {"data": [gspec | None per position], "templates": [...]},          (optional)
+#    "opts": {"reuse_instance": bool, "reuse_records": bool, "call_order": "asc" | "desc" | "mid"}}   (optional)
+# spec = {"v": canonical value (int | str | sorted list of ints | None), "as": kind[, "el": [kind per element]]}.  Values that are
+# equal under Python `==` (4, 4.0, numpy.int64(4), numpy.float32(4.0), -0.0 / 0; 'ab' / numpy.str_('ab'); [1, 2] / [1.0, 2];
+# a missing key / None) get the SAME model code - the code is the graphio encoding of the value actually handed to the
+# implementation; NaN (equal to nothing, itself included) gets a fresh code per occurrence.
+NUM_KINDS = ["int", "float", "np.int64", "np.int32", "np.float64", "np.float32"]
+NUM_WEIGHTS = [4, 4, 2, 1, 2, 1]
+NAN_KINDS = ("nan", "math.nan", "np.nan")
+
+
+def num_as(x, kind):
+    import numpy as np
+    if x != int(x):                                  # half-integral (aromatic order 1.5): float kinds only
+        kind = {"int": "float", "np.int64": "np.float64", "np.int32": "np.float32"}.get(kind, kind)
+    if kind == "int":
+        return int(x)
+    if kind == "float":
+        return float(x)
+    if kind == "neg_zero":
+        if x != 0:
+            raise AssertionError("neg_zero spells 0 only")
+        return -0.0
+    return getattr(np, kind[3:])(x)
+
+
+def rep_value(spec):
+    """-> (key present in the record, value)"""
+    import numpy as np
+    k, v = spec["as"], spec["v"]
+    if k == "missing":
+        return False, None
+    if k == "none":
+        return True, None
+    if k == "nan":
+        return True, float("nan")                    # a fresh object per record
+    if k == "math.nan":
+        import math
+        return True, math.nan                        # ONE object shared by all records that carry it (as pandas / numpy data do)
+    if k == "np.nan":
+        return True, np.nan                          # likewise (a module constant of type float)
+    if k == "str":
+        return True, str(v)
+    if k == "np.str_":
+        return True, np.str_(v)
+    if k == "list":
+        if list(v) != sorted(v):
+            raise AssertionError("list-valued attributes are generated in sorted order (see assumptions)")
+        return True, [num_as(x, e) for x, e in zip(v, spec["el"])]
+    return True, num_as(v, k)
+
+
+def rep_key(spec, role, pos):
+    """model code key of one attribute value: the graphio encoding of the object handed to the implementation"""
+    if spec["as"] in NAN_KINDS:
+        return json.dumps(["nan", role, pos])
+    _, value = rep_value(spec)
+    enc = json.dumps(graphio.val(value), sort_keys=True)
+    if enc != json.dumps(graphio.val(spec["v"]), sort_keys=True):
+        raise AssertionError(f"adapter: {value!r} is not encoded as its canonical value {spec['v']!r}")
+    return enc
+
+
+def attr_name(attr_mode):
+    return attr_mode if isinstance(attr_mode, str) else "rep"
+
+
+def attr_opts(attr_mode):
+    return {} if isinstance(attr_mode, str) else (attr_mode.get("opts") or {})
+
+
+def attr_spec(attr_mode, role, pos):
+    return attr_mode["rep"][role][pos]
+
+
+def attr_key(cw, i, attr_mode, role, pos):
+    if isinstance(attr_mode, str):
+        return 0 if attr_mode == "none" else cluster_attr(cw, i, attr_mode)
+    return rep_key(attr_spec(attr_mode, role, pos), role, pos)
+
+
+def attr_drop(attr_mode, role, pos):
+    """the attribute mode of the input with position `pos` of `role` removed"""
+    if isinstance(attr_mode, str):
+        return attr_mode
+    out = json.loads(json.dumps(attr_mode))
+    del out["rep"][role][pos]
+    if (out.get("graphs") or {}).get(role):
+        del out["graphs"][role][pos]
+    return out
+
+
+def graph_variant(g, gs):
+    """A relabelled, re-typed copy of `g`: isomorphic to `g` under every `==`-based matcher.  gs (JSON-able):
+    offset / reverse (node ids and insertion order), charge / order / element: kinds cycled over the nodes / edge-tuple
+    members (so that one graph mixes them), extras: attributes no matcher of BatchCluster selects."""
+    import networkx as nx
+    import numpy as np
+    nodes = list(g.nodes())
+    if gs.get("reverse"):
+        nodes.reverse()
+    ren = {n: int(gs.get("offset", 0)) + j for j, n in enumerate(nodes)}
+    ck, ok, ek = gs.get("charge") or ["int"], gs.get("order") or ["float"], gs.get("element") or ["str"]
+    H = nx.Graph()
+    for j, n in enumerate(nodes):
+        d = dict(g.nodes[n])
+        if "charge" in d:
+            d["charge"] = num_as(d["charge"], ck[j % len(ck)])
+        if "element" in d and ek[j % len(ek)] == "np.str_":
+            d["element"] = np.str_(d["element"])
+        if gs.get("extras"):
+            d.update(label=0, name="", id=j % 2)
+        H.add_node(ren[n], **d)
+    edges = list(g.edges(data=True))
+    if gs.get("reverse"):
+        edges.reverse()
+    c = 0
+    for j, (u, v, d) in enumerate(edges):
+        d = dict(d)
+        o = d.get("order")
+        if isinstance(o, tuple):
+            d["order"] = tuple(num_as(x, ok[(c + t) % len(ok)]) for t, x in enumerate(o))
+            c += len(o)
+        elif o is not None:
+            d["order"] = num_as(o, ok[c % len(ok)])
+            c += 1
+        if gs.get("extras"):
+            d.update(weight=1.0 + j, capacity=0, label="x", name=j % 2)
+        if gs.get("reverse"):
+            u, v = v, u
+        H.add_edge(ren[u], ren[v], **d)
+    # adapter self-check: under the renaming the graphio encodings (what the Lean engine classified) coincide
+    nk, ekeys = {"element", "charge"}, {"order"}
+    a = graphio.graph(g, node_keys=nk, edge_keys=ekeys, node_id=lambda n: ren[n])
+    b = graphio.graph(H, node_keys=nk, edge_keys=ekeys)
+    norm = lambda e: (sorted(json.dumps(x, sort_keys=True) for x in e["nodes"]),
+                      sorted(json.dumps([min(u, v), max(u, v), dd], sort_keys=True) for u, v, dd in e["edges"]))
+    if norm(a) != norm(b):
+        raise AssertionError("adapter: graph_variant changed the encoded graph")
+    return H
+
+
+def cluster_graph(cw, i, attr_mode, role, pos):
+    if isinstance(attr_mode, str):
+        return cw.graphs[i]
+    gl = (attr_mode.get("graphs") or {}).get(role)
+    gs = gl[pos] if gl else None
+    return cw.graphs[i] if not gs else graph_variant(cw.graphs[i], gs)
+
+
+def cluster_records(cw, pairs, attr_mode, role):
+    """pairs: [(corpus index, class label | None)] -> fresh record dicts"""
+    out = []
+    for pos, (i, lab) in enumerate(pairs):
+        d = {"g": cluster_graph(cw, i, attr_mode, role, pos), "idx": i}
+        if lab is not None:
+            d["class"] = lab
+        if isinstance(attr_mode, str):
+            if attr_mode != "none":
+                d["sig"] = cluster_attr(cw, i, attr_mode)
+        else:
+            present, value = rep_value(attr_spec(attr_mode, role, pos))
+            if present:
+                d["sig"] = value
+        out.append(d)
+    return out
+
+
+def make_cluster(cfg):
+    from synkit.Graph.Matcher.batch_cluster import BatchCluster
+    return BatchCluster() if cfg == "default" else BatchCluster(node_label_names=["element"], node_label_default=["*"])
+
+
+def cluster_impl(cw, items, attr_mode, cfg, k, templates=None, none_templates=False, full=False, bc=None, records=None):
     """`templates`: initial library as [(corpus index, class label), ...] (fresh dicts for every call: `fit`
     appends to the list it is given and writes into the entries).  `none_templates`: pass `templates=None`
-    (documented as "no templates") instead of [].  full=True -> (labels, [[corpus index, label], ...] returned library)."""
-    from synkit.Graph.Matcher.batch_cluster import BatchCluster
-    data = []
-    for i in items:
-        d = {"g": cw.graphs[i], "idx": i}
-        if attr_mode != "none":
-            d["sig"] = cluster_attr(cw, i, attr_mode)
-        data.append(d)
-    tl = None if none_templates else []
-    for i, lab in (templates or []):
-        d = {"g": cw.graphs[i], "idx": i, "class": lab}
-        if attr_mode != "none":
-            d["sig"] = cluster_attr(cw, i, attr_mode)
-        tl.append(d)
-    bc = BatchCluster() if cfg == "default" else BatchCluster(node_label_names=["element"], node_label_default=["*"])
+    (documented as "no templates") instead of [].  full=True -> (labels, [[corpus index, label], ...] returned library).
+    `bc` / `records`: a BatchCluster instance / the record dicts of an earlier call, used again (history must not matter)."""
+    data = records if records is not None else cluster_records(cw, [(i, None) for i in items], attr_mode, "data")
+    tl = None if none_templates else cluster_records(cw, [tuple(t) for t in (templates or [])], attr_mode, "templates")
+    if bc is None:
+        bc = make_cluster(cfg)
     try:
         out, tout = bc.fit(data, tl, rule_key="g", attribute_key=None if attr_mode == "none" else "sig", batch_size=k)
     except ValueError:
@@ -1167,8 +1358,28 @@ def cluster_impl(cw, items, attr_mode, cfg, k, templates=None, none_templates=Fa
     return labels
 
 
-def cluster_row(cw, i, attr_mode, cfg, repaired, amap):
-    a = 0 if attr_mode == "none" else cluster_attr(cw, i, attr_mode)
+def cluster_call_order(ks, attr_mode):
+    how = attr_opts(attr_mode).get("call_order", "asc")
+    if how == "desc":
+        return list(reversed(ks))                              # the one-shot call comes last
+    if how == "mid":
+        return ks[1:1 + len(ks) // 2] + ks[:1] + ks[1 + len(ks) // 2:]
+    return list(ks)
+
+
+def cluster_impl_all(cw, items, attr_mode, cfg, ks, **kw):
+    """every batch size of one case; with opts.reuse_instance / reuse_records on ONE BatchCluster / ONE list of record dicts"""
+    opts = attr_opts(attr_mode)
+    bc = make_cluster(cfg) if opts.get("reuse_instance") else None
+    recs = cluster_records(cw, [(i, None) for i in items], attr_mode, "data") if opts.get("reuse_records") else None
+    impl = {}
+    for k in cluster_call_order(ks, attr_mode):
+        impl[k] = cluster_impl(cw, items, attr_mode, cfg, k, bc=bc, records=recs, **kw)
+    return impl
+
+
+def cluster_row(cw, i, attr_mode, cfg, repaired, amap, role="data", pos=0):
+    a = attr_key(cw, i, attr_mode, role, pos)
     a = amap.setdefault(a, len(amap))
     c = cw.cls_default[i] if cfg == "default" else cw.cls_elem[i]
     c1 = c if repaired else cw.cls_default[i]
@@ -1177,74 +1388,273 @@ def cluster_row(cw, i, attr_mode, cfg, repaired, amap):
 
 def cluster_model_req(cw, items, attr_mode, cfg, k, repaired, templates=None):
     amap = {}
-    rows = [cluster_row(cw, i, attr_mode, cfg, repaired, amap) for i in items]
+    rows = [cluster_row(cw, i, attr_mode, cfg, repaired, amap, "data", pos) for pos, i in enumerate(items)]
     req = {"cmd": "batchcluster.fit", "items": rows, "batch_size": k}
     if templates:
-        req["templates"] = [cluster_row(cw, i, attr_mode, cfg, repaired, amap) + [lab] for i, lab in templates]
+        req["templates"] = [cluster_row(cw, i, attr_mode, cfg, repaired, amap, "templates", pos) + [lab]
+                            for pos, (i, lab) in enumerate(templates)]
     return req
+
+
+def cluster_ks(n):
+    return [None] + list(range(1, n + 2)) + [0, -1]          # batch_size < 1: ValueError by `batch_dicts`, on every input
+
+
+def cluster_model_reqs(cw, items, attr_mode, cfg, ks):
+    return [cluster_model_req(cw, items, attr_mode, cfg, k, True) for k in ks] + \
+           [cluster_model_req(cw, items, attr_mode, cfg, k, False) for k in ks]
+
+
+def cluster_judge(cw, items, attr_mode, cfg, ks, impl, ans, ctx=None):
+    """-> None | (batch size, impl partition, expected partition, known-finding classes)"""
+    mod_rep = dict(zip(ks, ans[:len(ks)]))
+    mod_coded = dict(zip(ks, ans[len(ks):]))
+    one = impl[None]
+    for k in ks:
+        got = impl[k]
+        gp = partition(got) if isinstance(got, list) else got
+        wrep = mod_rep[k]
+        wp = partition(wrep["ok"]) if "ok" in wrep else wrep["err"]
+        if gp == wp:
+            if ctx is not None and isinstance(got, list) and got == wrep.get("ok"):
+                ctx.count("c:labels_equal_too")
+            continue
+        wcod = mod_coded[k]
+        wcp = partition(wcod["ok"]) if "ok" in wcod else wcod["err"]
+        classes = [CLASS_ONESHOT] if (gp == wcp and cfg != "default") else []
+        return (k, gp, wp, classes)
+    if isinstance(one, list):
+        # impl vs impl, independent of the model: every batch size gives the one-shot partition
+        for k in ks[1:]:
+            if isinstance(impl[k], list) and partition(impl[k]) != partition(one):
+                return (k, partition(impl[k]), partition(one), [])
+        # `templates=None` is the documented spelling of "no templates": same answers as `[]`
+        for k in (None, 2):
+            got = cluster_impl(cw, items, attr_mode, cfg, k, none_templates=True)
+            if ctx is not None:
+                ctx.count("c:fit_calls_with_templates_None")
+            if not isinstance(got, list) or partition(got) != partition(one):
+                return (k, partition(got) if isinstance(got, list) else got, partition(one), [])
+    return None
+
+
+def cluster_eval(ctx, cw, items, attr_mode, cfg):
+    ks = cluster_ks(len(items))
+    impl = cluster_impl_all(cw, items, attr_mode, cfg, ks)
+    ans = ctx.lean().ok(cluster_model_reqs(cw, items, attr_mode, cfg, ks))
+    return impl, cluster_judge(cw, items, attr_mode, cfg, ks, impl, ans)
+
+
+def rep_visible_pairs(cw, items, attr_mode, cfg, role="data", graphs=True):
+    """number of position pairs of one model class whose attribute values are equal (same model code) but PRINT differently,
+    or whose graphs are differently typed / labelled copies: a classification that looks at the representation splits them"""
+    if isinstance(attr_mode, str):
+        return 0
+    cls = cw.cls_default if cfg == "default" else cw.cls_elem
+    gl = (attr_mode.get("graphs") or {}).get(role) or [None] * len(items)
+    n = 0
+    for q in range(len(items)):
+        for p in range(q):
+            if cls[items[p]] != cls[items[q]]:
+                continue
+            sp, sq = attr_spec(attr_mode, role, p), attr_spec(attr_mode, role, q)
+            if rep_key(sp, role, p) != rep_key(sq, role, q):
+                continue
+            if repr(rep_value(sp)) != repr(rep_value(sq)):
+                n += 1
+            elif graphs and gl[p] != gl[q]:
+                n += 1
+    return n
 
 
 def run_cluster(ctx, cw, cases, tag):
     """cases: (items, attr_mode, cfg)"""
+    pre = "c:" if tag != "representation" else "c-rep:"
+    # phase 1: the implementation, case by case; phase 2: the (pure) Lean model of all cases in one driver call; phase 3: gates
+    evald, reqs = [], []
     for items, attr_mode, cfg in cases:
+        ks = cluster_ks(len(items))
+        impl = cluster_impl_all(cw, items, attr_mode, cfg, ks)
+        rr = cluster_model_reqs(cw, items, attr_mode, cfg, ks)
+        evald.append((ks, impl, len(reqs), len(rr)))
+        reqs.extend(rr)
+    answers = ctx.lean().ok(reqs, shards=8) if reqs else []
+    for (items, attr_mode, cfg), (ks, impl, off, nreq) in zip(cases, evald):
         n = len(items)
-        ks = [None] + list(range(1, n + 2)) + [0, -1]          # batch_size < 1: ValueError by `batch_dicts`, on every input
-        impl = {k: cluster_impl(cw, items, attr_mode, cfg, k) for k in ks}
-        reqs = [cluster_model_req(cw, items, attr_mode, cfg, k, True) for k in ks] + \
-               [cluster_model_req(cw, items, attr_mode, cfg, k, False) for k in ks]
-        ans = ctx.lean().ok(reqs)
-        mod_rep = dict(zip(ks, ans[:len(ks)]))
-        mod_coded = dict(zip(ks, ans[len(ks):]))
         one = impl[None]
         ncls = len(partition(one)) if isinstance(one, list) else 0
-        ctx.count(f"c:config={cfg}")
-        ctx.count(f"c:attr={attr_mode}")
-        ctx.count("c:fit_calls", len(ks))
-        ctx.case(["cluster", items, attr_mode, cfg], n >= 3 and 2 <= ncls < n,
-                 sample={"stream": "c:" + tag, "items": items, "attr": attr_mode, "config": cfg,
-                         "one_shot_classes": one} if n <= 5 and want_sample(ctx, "c:", 1) else None)
-        bad = None
-        for k in ks:
-            got = impl[k]
-            gp = partition(got) if isinstance(got, list) else got
-            wrep = mod_rep[k]
-            wp = partition(wrep["ok"]) if "ok" in wrep else wrep["err"]
-            if gp == wp:
-                if isinstance(got, list) and got == wrep.get("ok"):
-                    ctx.count("c:labels_equal_too")
-                continue
-            wcod = mod_coded[k]
-            wcp = partition(wcod["ok"]) if "ok" in wcod else wcod["err"]
-            classes = [CLASS_ONESHOT] if (gp == wcp and cfg != "default") else []
-            bad = (k, gp, wp, classes)
-            break
-        if bad is None and isinstance(one, list):
-            # impl vs impl, independent of the model: every batch size gives the one-shot partition
-            for k in ks[1:]:
-                if isinstance(impl[k], list) and partition(impl[k]) != partition(one):
-                    bad = (k, partition(impl[k]), partition(one), [])
-                    break
-        if bad is None and isinstance(one, list):
-            # `templates=None` is the documented spelling of "no templates": same answers as `[]`
-            for k in (None, 2):
-                got = cluster_impl(cw, items, attr_mode, cfg, k, none_templates=True)
-                ctx.count("c:fit_calls_with_templates_None")
-                if not isinstance(got, list) or partition(got) != partition(one):
-                    bad = (k, partition(got) if isinstance(got, list) else got, partition(one), [])
-                    break
+        ctx.count(f"{pre}config={cfg}")
+        ctx.count(f"{pre}attr={attr_name(attr_mode)}")
+        ctx.count(f"{pre}fit_calls", len(ks))
+        nontrivial = n >= 3 and 2 <= ncls < n
+        if not isinstance(attr_mode, str):
+            vis = rep_visible_pairs(cw, items, attr_mode, cfg)
+            visa = rep_visible_pairs(cw, items, attr_mode, cfg, graphs=False)
+            ctx.count("c-rep:cases_with_equal_values_of_different_print_in_one_class", 1 if visa else 0)
+            ctx.count("c-rep:position_pairs_equal_value_different_print_same_class", visa)
+            ctx.count("c-rep:position_pairs_same_class_differently_typed_graph_copies", vis - visa)
+            for sp in attr_mode["rep"]["data"]:
+                ctx.count(f"c-rep:value_kind={sp['as']}")
+            for kk, vv in sorted(attr_opts(attr_mode).items()):
+                ctx.count(f"c-rep:{kk}={vv}")
+            if (attr_mode.get("graphs") or {}).get("data"):
+                ctx.count("c-rep:cases_with_retyped_relabelled_graph_copies")
+            ctx.count(f"c-rep:base={attr_mode.get('base', '?')}")
+            nontrivial = nontrivial and vis >= 1
+        ctx.case(["cluster", items, attr_mode, cfg], nontrivial,
+                 sample={"stream": pre + tag, "items": items, "attr": attr_mode, "config": cfg,
+                         "one_shot_classes": one} if n <= 5 and want_sample(ctx, pre, 1) else None)
+        bad = cluster_judge(cw, items, attr_mode, cfg, ks, impl, answers[off:off + nreq], ctx)
         if bad is None:
             continue
         k, gp, wp, classes = bad
+        small_items, small_attr = list(items), attr_mode
+        if not classes:
+            # minimise: drop positions while the case still fails (any unclassified failure)
+            budget = 40
+            pos = len(small_items) - 1
+            while pos >= 0 and len(small_items) > 1 and budget > 0:
+                cand_items = small_items[:pos] + small_items[pos + 1:]
+                cand_attr = attr_drop(small_attr, "data", pos)
+                budget -= 1
+                try:
+                    _, b2 = cluster_eval(ctx, cw, cand_items, cand_attr, cfg)
+                except Exception:  # noqa: a candidate the adapters reject is no candidate
+                    b2 = None
+                if b2 is not None and not b2[3]:
+                    small_items, small_attr = cand_items, cand_attr
+                pos -= 1
+            if not isinstance(small_attr, str):          # ... and the parts of the mode that are not needed
+                for drop in ("graphs", "opts"):
+                    if small_attr.get(drop):
+                        cand_attr = {kk: vv for kk, vv in small_attr.items() if kk != drop}
+                        _, b2 = cluster_eval(ctx, cw, small_items, cand_attr, cfg)
+                        if b2 is not None and not b2[3]:
+                            small_attr = cand_attr
+            if small_items != list(items) or small_attr != attr_mode:
+                impl, b2 = cluster_eval(ctx, cw, small_items, small_attr, cfg)
+                if b2 is not None:
+                    k, gp, wp, classes = b2
+                    one = impl[None]
+                else:                                    # not reproducible on the reduced input: report the original
+                    small_items, small_attr = list(items), attr_mode
+        case = {"stream": "cluster", "items": small_items, "attr": small_attr, "config": cfg,
+                "reactions": [cw.rsmi[i] for i in small_items]}
+        if not isinstance(small_attr, str):
+            case["attribute_values"] = [repr(rep_value(sp)[1]) if rep_value(sp)[0] else "<key absent>" for sp in small_attr["rep"]["data"]]
         ctx.violation("batched clustering and one-shot clustering give different partitions" if classes else
                       "BatchCluster.fit partition differs from the model (classes by the proven isomorphism engine)",
-                      {"stream": "cluster", "items": items, "attr": attr_mode, "config": cfg,
-                       "reactions": [cw.rsmi[i] for i in items]},
+                      case,
                       {"batch_size": k, "impl_partition": gp, "expected_partition": wp,
                        "one_shot_partition": partition(one) if isinstance(one, list) else one,
-                       "batch_size_1_partition": partition(impl[1]) if isinstance(impl[1], list) else impl[1], "stream": tag},
+                       "batch_size_1_partition": partition(impl[1]) if isinstance(impl[1], list) else impl[1],
+                       "batch_sizes_whose_partition_differs_from_one_shot":
+                           [kk for kk in impl if kk is not None and isinstance(impl[kk], list) and isinstance(one, list)
+                            and partition(impl[kk]) != partition(one)], "stream": tag},
                       classes=classes)
         if len([v for v in ctx.violations if not v["classes"]]) >= 4:
             return
+
+
+# ---------------------------------------------------------------------- streams c-rep / c'-rep: representation of attribute values and graphs
+REP_BASES = ["size", "size", "big", "zero", "coarse", "sig", "empty", "pair", "none", "cls", "free", "free"]
+FREE_VALUES = [0, 0, 1, 2, 10, 2500, "", "0", "a", None]     # "free": no function of the graph - class mates get different values
+
+
+def rep_base_value(cw, i, base):
+    g = cw.graphs[i]
+    if base == "size":
+        return g.number_of_nodes()
+    if base == "big":                                  # multi-digit, beyond the small alphabet
+        return 2500 * g.number_of_nodes() + 50 * g.number_of_edges() + 1
+    if base == "zero":                                 # falsy but legal
+        return 0
+    if base == "coarse":                               # does not separate the classes much
+        return g.number_of_nodes() // 3
+    if base == "cls":                                  # 0 for the first class: falsy for some records only
+        return cw.cls_default[i]
+    if base == "sig":
+        return cw.sig[i]
+    if base == "empty":
+        return ""
+    if base == "pair":
+        return sorted([g.number_of_nodes(), g.number_of_edges()])
+    if base == "none":
+        return None
+    raise AssertionError(base)
+
+
+def rep_spec(rnd, v, plain=0.35, nan=0.0):
+    """one spelling of the canonical value v"""
+    if v is None:
+        return {"v": None, "as": rnd.choice(["none", "missing"])}
+    if isinstance(v, str):
+        return {"v": v, "as": "str" if rnd.random() < 0.6 else "np.str_"}
+    if isinstance(v, list):
+        return {"v": v, "as": "list", "el": [rnd.choice(["int", "float", "np.int64", "np.float64"]) for _ in v]}
+    if rnd.random() < nan:
+        return {"v": None, "as": rnd.choice(["nan", "math.nan", "math.nan", "np.nan"])}
+    kinds, w = list(NUM_KINDS), list(NUM_WEIGHTS)
+    if v == 0:
+        kinds.append("neg_zero")
+        w.append(2)
+    return {"v": v, "as": "int" if rnd.random() < plain else rnd.choices(kinds, weights=w)[0]}
+
+
+def rep_gspec(rnd):
+    return {"offset": rnd.choice([0, 0, 1, 100]), "reverse": rnd.random() < 0.5,
+            "charge": [rnd.choice(["int", "float", "np.int64", "np.float64"]) for _ in range(rnd.randint(1, 3))],
+            "order": [rnd.choice(["float", "int", "np.float64", "np.float32", "np.int64"]) for _ in range(rnd.randint(1, 3))],
+            "element": [rnd.choice(["str", "np.str_"]) for _ in range(rnd.randint(1, 2))],
+            "extras": rnd.random() < 0.5}
+
+
+def rep_attr_mode(rnd, cw, items, templates=(), base=None):
+    base = base or rnd.choice(REP_BASES)
+    nan = 0.3 if (base in ("size", "coarse", "zero", "free") and rnd.random() < 0.3) else 0.0
+    value = (lambda i: rnd.choice(FREE_VALUES)) if base == "free" else (lambda i: rep_base_value(cw, i, base))
+    mode = {"base": base,
+            "rep": {"data": [rep_spec(rnd, value(i), nan=nan) for i in items],
+                    "templates": [rep_spec(rnd, value(i)) for i, _ in templates]},
+            "opts": {"reuse_instance": rnd.random() < 0.4, "reuse_records": rnd.random() < 0.3,
+                     "call_order": rnd.choice(["asc", "asc", "desc", "mid"])}}
+    if rnd.random() < 0.4:
+        mode["graphs"] = {"data": [rep_gspec(rnd) if rnd.random() < 0.7 else None for _ in items],
+                          "templates": [rep_gspec(rnd) if rnd.random() < 0.7 else None for _ in templates]}
+    return mode
+
+
+def gen_cluster_rep_case(rnd, cw, nR, max_n=8):
+    """items with look-alikes: members of one isomorphism class at several positions (repeats and class mates), so that
+    two equal attribute values of different print meet inside one class"""
+    cfg = "default" if rnd.random() < 0.75 else "element"
+    cls = cw.cls_default if cfg == "default" else cw.cls_elem
+    members = {}
+    for i, c in enumerate(cls):
+        members.setdefault(c, []).append(i)
+    n = rnd.randint(3, max_n)
+    items = []
+    while len(items) < n:
+        x = rnd.random()
+        if items and x < 0.3:
+            items.append(rnd.choice(items))                                 # the same reaction centre again
+        elif items and x < 0.55:
+            items.append(rnd.choice(members[cls[rnd.choice(items)]]))       # a class mate
+        else:
+            items.append(rnd.randrange(nR))
+    rnd.shuffle(items)
+    return (items, rep_attr_mode(rnd, cw, items), cfg)
+
+
+def gen_cluster_t_rep_case(rnd, cw, nR):
+    """a c' case (initial template library) whose attribute is re-spelled per record and per template"""
+    case = gen_cluster_t_case(rnd, cw, nR)
+    base = {"none": "none", "sig": "sig", "size": rnd.choice(["size", "big"])}[case["attr"]]
+    if rnd.random() < 0.25:
+        base = "free"
+    case["attr"] = rep_attr_mode(rnd, cw, case["items"], [tuple(t) for t in case["templates"]], base=base)
+    case["attr"]["opts"] = {}                                              # c' builds fresh records for every call
+    return case
 
 
 # ---------------------------------------------------------------------- stream c': fit with an initial template library
@@ -1328,14 +1738,32 @@ def run_cluster_templates(ctx, cw, cases, tag):
         hit = sum(1 for x in one["labels"] if x[0] == "t") if isinstance(one, dict) else 0
         new = len({x[1] for x in one["labels"] if x[0] == "n"}) if isinstance(one, dict) else 0
         ctx.count(f"c':config={cfg}")
-        ctx.count(f"c':attr={attr_mode}")
+        ctx.count(f"c':attr={attr_name(attr_mode)}")
+        vis = 0
+        if not isinstance(attr_mode, str):
+            # an item and the template of its class whose equal attribute values print differently, or two such items
+            cls = cw.cls_default if cfg == "default" else cw.cls_elem
+            for p_, i in enumerate(items):
+                sp = attr_spec(attr_mode, "data", p_)
+                for q_, (j, _) in enumerate(templates):
+                    sq = attr_spec(attr_mode, "templates", q_)
+                    if cls[i] == cls[j] and rep_key(sp, "data", p_) == rep_key(sq, "templates", q_) and \
+                            repr(rep_value(sp)) != repr(rep_value(sq)):
+                        vis += 1
+            vis += rep_visible_pairs(cw, items, attr_mode, cfg)
+            ctx.count("c'-rep:cases", 1)
+            ctx.count("c'-rep:cases_with_equal_values_of_different_print_in_one_class", 1 if vis else 0)
+            ctx.count(f"c'-rep:base={attr_mode.get('base', '?')}")
+            for sp in attr_mode["rep"]["data"] + attr_mode["rep"]["templates"]:
+                ctx.count(f"c'-rep:value_kind={sp['as']}")
         ctx.count(f"c':library_shape={case.get('shape', '?')}")
         ctx.count(f"c':library_size={len(templates)}")
         ctx.count(f"c':data_size={n if n < 2 else ('2-4' if n <= 4 else '5-7')}")
         ctx.count("c':fit_calls", len(ks))
         ctx.count("c':items_put_into_a_class_of_the_initial_library", hit)
         ctx.count("c':new_classes", new)
-        ctx.case(["cluster_t", items, attr_mode, cfg, case["templates"]], n >= 2 and hit >= 1 and new >= 1,
+        ctx.case(["cluster_t", items, attr_mode, cfg, case["templates"]],
+                 n >= 2 and hit >= 1 and new >= 1 and (isinstance(attr_mode, str) or vis >= 1),
                  sample={"stream": "c':" + tag, **{k: case[k] for k in ("items", "attr", "config", "templates")},
                          "one_shot": impl[None] if not isinstance(impl[None], str) else impl[None]}
                  if n <= 4 and want_sample(ctx, "c':", 1) else None)
@@ -1788,7 +2216,9 @@ def run(ctx):
         "cache_maxsize >= 1 when the cache is enabled (size 0 raises StopIteration on both trees: recorded as an observation, not gated)",
         "BatchReactor with react_engine 'syn' (the 'mod' engine needs the external package `mod`, not installed); with a "
         "pre_filter_engine the reference is the implementation itself on the one-entry batch (the Lean fit model has no pre-filter)",
-        "clustering attributes are strings or attribute_key=None (list-valued attributes are sorted by the one-shot path only)",
+        "clustering attributes are strings, numbers (int / float / numpy scalars; NaN equal to nothing), None or absent, or "
+        "lists of numbers given in sorted order (list-valued attributes are sorted by the one-shot path only; a tuple and a list "
+        "with the same members are equal for the one-shot path only - not generated); bool is not mixed with int",
         "b-err: which of several ill-formed members of one batch determines the raised error is not fixed by the property (any of "
         "them is accepted); the documented error types (KeyError / TypeError / ValueError) are counted, not gated",
         "d', e' and the n_jobs>1 part of b-err have no Lean model: the reference is the property's own right-hand side (the serial "
@@ -1801,7 +2231,7 @@ def run(ctx):
         "call fw/bw) to depth 4 (quick) / 5 (thorough) at cache sizes 1 and 8, plus random programs (<=60 ops, 6 slots, 3 rule objects, "
         "cache off / sizes 1,2,3,8,big). (b) random batches (1..7 entries; repeated and same-formula look-alike substrates from "
         "corpus/c14_substrates.json; 1..5 templates from corpus/c14_templates.json, repeated rules; 1-2 fits per reactor; both "
-        "directions; rules as strings or graphs) x cache on/off x cache_maxsize {1,2,3,big} x dedupe x entry_n_jobs {1; 2,4; 8 thorough}. "
+        "directions; rules as strings or graphs, handed over as list / tuple / generator / iter() / map()) x cache on/off x cache_maxsize {1,2,3,big} x dedupe x entry_n_jobs {1; 2,4; 8 thorough}. "
         "(b') the constructor's option space: rule lists of every length 1..7 built so that each rule converts some substrate of the "
         "batch (substrates picked from the template's hit list; repeated / look-alike / inert extras), x effective rule workers "
         "{2,3,4} (parallel_rules, entry_n_jobs in {0,1}), nested (entry_n_jobs 2-3 x rule_n_jobs 2-4, allow_nested), entry workers "
@@ -1811,6 +2241,14 @@ def run(ctx):
         "1-3 fits per reactor (permuted, rotated, shortened, repeated, other direction, fresh list). "
         "(c) random item lists (3..9 reaction centres of corpus/c14_reactions.json, with repeats) x attribute {none, element signature, "
         "size} x matcher config {default, element-only}, every batch size 1..N+1, 0, -1 and one shot; templates [] and None. "
+        "(c-rep) 3..8 (thorough: also ..14) items built from repeats and isomorphism-class mates x attribute base {node count, "
+        "2500*nodes+50*edges+1, 0, nodes//3, class number, element signature, '', sorted [nodes, edges], None, free = drawn per "
+        "record from {0, 1, 2, 10, 2500, '', '0', 'a', None} so that class mates carry different values} with every record's value "
+        "spelled independently {int, float, numpy int64/int32/float64/float32, -0.0; str, numpy.str_; key absent, None; list members "
+        "int/float/numpy}, some NaN; 40%: graphs as relabelled / reversed copies with charge, bond-order members and element re-typed "
+        "per node / edge and unselected extra attributes (label, name, id, weight, capacity); one BatchCluster instance and/or one "
+        "record list used for all batch sizes, call order asc / desc / one shot in the middle. (c'-rep) the c' cases with data and "
+        "template attributes re-spelled the same way. "
         "(b-err) batches of 1..6 entries (valid corpus substrates as strings / dicts) with 1-2 ill-formed members {unparsable SMILES, "
         "non-string, dict without key, dict with non-string value, dict without host_key} at first / middle / last position, or a rule list "
         "with a non-rule (int, None, float, list, unparsable / arrow-less / empty string) at a random position, optionally followed by a good "
@@ -1822,7 +2260,8 @@ def run(ctx):
         "without '>>'. (e) parallel vs serial. (e') option vectors as listed in the docstring, seeds containing the reactants of a rule.")
     ctx.nontrivial_rule = ("(a) >=2 calls and a release or an identity reuse; (b) >=2 entries and >=1 entry with products; (b') removing any single position of the first rule list changes the "
                            "reference result of some entry; (c) >=3 items, "
-                           "2 <= #classes < #items; (b-err) >=2 entries or an ill-formed rule list; (c') >=2 items, >=1 item put into a class of "
+                           "2 <= #classes < #items; (c-rep) as (c) and two positions of one class whose attribute values are equal but print "
+                           "differently (or whose graphs are differently typed copies); (c'-rep) as (c') and such a pair among items / templates; (b-err) >=2 entries or an ill-formed rule list; (c') >=2 items, >=1 item put into a class of "
                            "the initial library and >=1 new class; (d),(d'),(e) every case; (e') >=1 reaction node; distinct as JSON values")
     build_and_audit(ctx, ["SynKitProofs.Props.C14"], "SynKitProofs/Audit/C14.lean", THEOREMS)
 
@@ -1936,6 +2375,20 @@ def run(ctx):
                    "every batch size == one shot == Lean model", nviol(ctx) == nc2)
 
     lap("c'")
+    # ---- c-rep / c'-rep: the pre-filter attribute (and the graphs) spelled differently from record to record
+    nc3 = nviol(ctx)
+    rcases = [gen_cluster_rep_case(rnd, cw, len(reactions)) for _ in range(180 if ctx.quick else 1800)]
+    if not ctx.quick:      # just beyond the sizes of stream c
+        rcases += [gen_cluster_rep_case(rnd, cw, len(reactions), max_n=14) for _ in range(60)]
+    run_cluster(ctx, cw, rcases, "representation")
+    trcases = [gen_cluster_t_rep_case(rnd, cw, len(reactions)) for _ in range(60 if ctx.quick else 600)]
+    if nviol(ctx) == nc3:
+        run_cluster_templates(ctx, cw, trcases, "representation")
+    ctx.obligation("correspondence c-rep / c'-rep: BatchCluster.fit when the pre-filter attribute values that are equal under == are "
+                   "spelled differently from record to record (int / float / numpy scalars / -0.0, str / numpy.str_, key absent / None, "
+                   "lists of mixed numbers, NaN) and the graphs are re-typed, relabelled copies; one BatchCluster / one record list "
+                   "used for all calls, calls in several orders: every batch size == one shot == Lean model", nviol(ctx) == nc3)
+    lap("c-rep")
     # ---- d, e (exploration of the runtime part)
     nd = nviol(ctx)
     try:
